@@ -210,6 +210,41 @@ def run(r: Run):
                 r.violation("corr", wit, f"isotopic_convolution({pairs}, t={float(t)}): impl and model peak lists differ "
                             f"({len(peaks)} vs {len(mp[1])} peaks)", expected=ms[:300], observed={"lines": [line], "impl": il[:300]},
                             kind="corr_broken")
+    # "sorted by m/z" is a statement about what is returned, at whatever charge: light compositions whose m/z go negative
+    # (|z| * carrier above the mass, or a negative carrier), mixed signs, and ordinary ions — order, count and sum
+    light = ["He:0=1", "H:0=1", "H:0=2", "C:0=1", "C:0=2,H:0=6", "O:0=1,H:0=2", "Li:0=2", "B:0=1,H:0=3", "Cl:0=1,H:0=1", "S:0=1"]
+    sample = light + [p for p, t, form in cases[:: max(1, len(cases) // 40)] if p not in ("-", "F:0=1073741824")][:40]
+    combos = [(-3, Fraction(1007276, 10 ** 6)), (-2, Fraction(1007276, 10 ** 6)), (-1, Fraction(25, 2)), (1, Fraction(-31)),
+              (-8, Fraction(22989218, 10 ** 6)), (2, Fraction(1007276, 10 ** 6)), (-1, Fraction(1007276, 10 ** 6)), (3, Fraction(-1007276, 10 ** 6))]
+    clines, cmeta = [], []
+    for p in sample:
+        for z, c in combos:
+            for form in ("vec", "map"):
+                clines.append(f"conv\t{p}\t0\t0/1\t0/1\t{form}")
+                clines.append(f"conv\t{p}\t{z}\t{fr(c)}\t0/1\t{form}")
+                cmeta.append((p, z, c, form))
+    couts = r.impl("conv", clines)
+    for k, (p, z, c, form) in enumerate(cmeta):
+        n0, nz = parse_pattern(couts[2 * k]), parse_pattern(couts[2 * k + 1])
+        r.case(("charged", z, float(c) > 0, isinstance(nz, str)), {"line": clines[2 * k + 1], "impl": couts[2 * k + 1][:160]})
+        wit = {"charged": True, "z": z}
+        if isinstance(nz, str) or isinstance(n0, str):
+            corr_ok = False
+            r.violation("total", dict(wit, outcome=couts[2 * k + 1].split(" ")[0]), f"isotopic_convolution({p}, z={z}, carrier={float(c)}): {couts[2 * k + 1][:60]}",
+                        observed={"lines": [clines[2 * k + 1]]})
+            continue
+        probs = []
+        if any(a[0] > b[0] for a, b in zip(nz[1], nz[1][1:])):
+            probs.append(("sorted", "peaks are not sorted by m/z: " + ", ".join(f"{float(a[0]):.6f}" for a in nz[1][:6])))
+        if len(nz[1]) != len(n0[1]):
+            probs.append(("exact", f"{len(nz[1])} peaks at charge {z}, {len(n0[1])} neutral"))
+        if nz[1] and not close(sum(q[1] for q in nz[1]), Fraction(1), rel=1e-9):
+            probs.append(("sum", f"intensities sum to {float(sum(q[1] for q in nz[1]))}"))
+        for clause, detail in probs:
+            corr_ok = False
+            r.violation(clause, wit, f"isotopic_convolution({p}, z={z}, carrier={float(c)}, {form}): {detail}",
+                        observed={"lines": [clines[2 * k + 1]], "impl": couts[2 * k + 1][:300]})
+    r.coverage["charged_calls"] = len(cmeta)
     r.coverage["boundary_skipped"] = skipped
     r.oblige("correspondence: isotopic_convolution agrees with the model and the exact arrangement enumeration", "corr", corr_ok)
     r.assumptions.append("f64 rounding not modelled: masses compared to 1e-9 Da, intensities to 1e-9 relative; arrangements within 1e-9 of the threshold skipped")
